@@ -1144,6 +1144,15 @@ class Server(utils.EventEmitter):
                 attribute_handle_in_error=request.attribute_handle,
                 error_code=error.error_code,
             )
+        except Exception:
+            # The value could not be written (for instance a dynamic value without a
+            # write function): the request must still be answered.
+            logger.exception('!!! exception while writing attribute value')
+            response = att.ATT_Error_Response(
+                request_opcode_in_error=request.op_code,
+                attribute_handle_in_error=request.attribute_handle,
+                error_code=att.ATT_UNLIKELY_ERROR_ERROR,
+            )
         else:
             # Done
             response = att.ATT_Write_Response()
